@@ -2,10 +2,12 @@
 //! accounting, evidence files, replay files, known findings, panic capture,
 //! RNG instruments and the statistical test used by distributional checks.
 
+pub mod gen_vm;
 pub mod model;
 pub mod props;
 pub mod rngs;
 pub mod stats;
+pub mod vm_oracle;
 
 use std::cell::RefCell;
 use std::collections::{BTreeMap, BTreeSet, HashSet};
@@ -199,6 +201,45 @@ pub fn runner(seed: u64, cases: u32) -> TestRunner {
     TestRunner::new_with_rng(config, TestRng::from_seed(RngAlgorithm::ChaCha, &seed_bytes(seed)))
 }
 
+// ---------------------------------------------------------------- watchdog
+
+/// (millis since process start when the current case began, worker, case index); 0 = idle
+static HEARTBEATS: Mutex<Vec<(u64, String, u64)>> = Mutex::new(Vec::new());
+static PROCESS_START: std::sync::OnceLock<Instant> = std::sync::OnceLock::new();
+
+fn now_ms() -> u64 {
+    PROCESS_START.get_or_init(Instant::now).elapsed().as_millis() as u64 + 1
+}
+
+fn beat(slot: usize, what: &str, index: u64, active: bool) {
+    let mut g = HEARTBEATS.lock().unwrap_or_else(std::sync::PoisonError::into_inner);
+    if g.len() <= slot {
+        g.resize(slot + 1, (0, String::new(), 0));
+    }
+    g[slot] = (if active { now_ms() } else { 0 }, what.to_string(), index);
+}
+
+/// A case that runs longer than `VERIF_WATCHDOG_S` (default 300 s, against an
+/// expected few milliseconds) makes the run *inconclusive* (exit 2), never a violation.
+pub fn start_watchdog(property: &str) {
+    let limit_s: u64 = std::env::var("VERIF_WATCHDOG_S").ok().and_then(|s| s.parse().ok()).unwrap_or(300);
+    let property = property.to_string();
+    now_ms();
+    std::thread::spawn(move || loop {
+        std::thread::sleep(std::time::Duration::from_millis(500));
+        let now = now_ms();
+        let g = HEARTBEATS.lock().unwrap_or_else(std::sync::PoisonError::into_inner);
+        for (slot, (t, what, index)) in g.iter().enumerate() {
+            if *t != 0 && now.saturating_sub(*t) > limit_s * 1000 {
+                println!(
+                    "INCONCLUSIVE property={property} watchdog: case {index} of worker {slot} in sub-check {what} has been running for more than {limit_s} s (hang or pathological slowness; not counted as a violation)"
+                );
+                std::process::exit(2);
+            }
+        }
+    });
+}
+
 // ---------------------------------------------------------------- panic capture
 
 thread_local! {
@@ -384,7 +425,7 @@ impl Ctx {
                         .stack_size(256 << 20)
                         .spawn_scoped(scope, move || {
                             let strategy = mk_strategy();
-                            run_chunk(derive_seed(seed, property, sub, w as u64), n, &strategy, oracle, known)
+                            run_chunk(w, sub, derive_seed(seed, property, sub, w as u64), n, &strategy, oracle, known)
                         })
                         .expect("spawn worker")
                 })
@@ -579,6 +620,8 @@ impl Ctx {
 }
 
 fn run_chunk<S, F>(
+    slot: usize,
+    sub: &str,
     seed: u64,
     cases: u32,
     strategy: &S,
@@ -606,7 +649,9 @@ where
         let value = tree.current();
         acct.evaluations += 1;
         let mut probe = Probe::default();
+        beat(slot, sub, acct.evaluations, true);
         let r = oracle(&value, &mut probe);
+        beat(slot, sub, acct.evaluations, false);
         for l in probe.labels.drain(..) {
             *acct.labels.entry(l).or_default() += 1;
         }
